@@ -122,7 +122,7 @@ prop("C02",
      "contract plus these rules, by argument not by check).")
 
 prop("C03",
-     [ts2.rule_R1, sig.rule_R2, LEAK_SCOPED, ts2.rule_R3key, ts2.rule_R4, ts2.rule_R5, ts.rule_M4, A("rule_E5"), A("rule_Y3"), st.rule_M5],
+     [ts2.rule_R1, sig.rule_R2, LEAK_SCOPED, ts2.rule_R3key, ts2.rule_R4, ts2.rule_R5, ts.rule_M4, A("rule_E5"), A("rule_Y3"), st.rule_M5, ts2.rule_R6],
      "R1 unlock-style APIs release every lock of the consumed guard before returning its key; R2 key field declared after hold "
      "fields in every guard (drop order); R3 scoped calls hold nothing at return and at every unwinding exit; R3k the key outlives "
      "the closure; R4 a failed try returns Err(key) holding nothing and without running user code; R5 guard-returning APIs move the "
@@ -148,7 +148,7 @@ prop("C05",
      "collection ops; Q3/Q4 rollback and unwind handlers of the multi-lock algorithms release what was taken, in mode.",
      "'when all threads dropped their guards every lock is free' as a run-time fact over schedules.")
 prop("C06",
-     [ts2.rule_K1, cg.rule_K2, sig.rule_K3, sig.rule_S2, ts2.rule_R5, ts2.rule_R3key, ts2.rule_R1],
+     [ts2.rule_K1, cg.rule_K2, sig.rule_K3, sig.rule_S2, ts2.rule_R5, ts2.rule_R3key, ts2.rule_R1, ts2.rule_R6],
      "Static invariants behind 'at most one live ThreadKey per thread': K1 single constructor guarded by the flag test-and-set "
      "(path-sensitive analysis of ThreadKey::get: no key object exists on the refusing path), K2 flag protocol (thread-local, "
      "set by test-and-set, cleared only by Drop for ThreadKey, once), K3 impl table (no Clone/Copy/Default/Send, Keyable sealed), "
@@ -156,7 +156,7 @@ prop("C06",
      "agreement with a reference model over API histories (the rules are the invariants such a model would check).")
 
 prop("C14",
-     [sig.rule_K3, sig.rule_S1, sig.rule_S2, sig.rule_S3, sig.rule_S5, sig.rule_A4, W("C14")],
+     [sig.rule_K3, sig.rule_S1, sig.rule_S2, sig.rule_S3, sig.rule_S5, sig.rule_A4, ts2.rule_R6, W("C14")],
      "Universal signature rules over every function/impl of the crate (impl table of the key, private fields of key carriers, "
      "key conservation at signature level, no reference-to-key APIs, no replaceable guard payload behind &mut, unsafe markers) "
      "plus a corpus of offending client programs that the real compiler must reject, each with a compiling twin.",
